@@ -241,6 +241,12 @@ Response(U, doc, opName, given, dv) ==
               r == ExecSels(C, U.roots[op.type], op.sels, <<>>)
           IN [hasData |-> TRUE, data |-> V("obj", r.val), errs |-> r.errs, calls |-> r.calls]
 
+\* C02: which strategy serves a node.  An object implementing the Resolver interface is always
+\* asked directly; anything else goes to the root (any) resolver when one is installed and is
+\* resolved by reflection otherwise.
+Via(kind, anyInstalled) ==
+  IF kind = "resolver" THEN "iface" ELSE IF anyInstalled THEN "any" ELSE "refl"
+
 \* multiset equality of two sequences
 SameBag(a, b) ==
   /\ Len(a) = Len(b)
